@@ -1,7 +1,7 @@
 """C04 — the token stream is a well-formed tree and every Pairs view agrees with it."""
 from props.common import *
 
-MODULES = ["PestModel.Thm.C04"]
+MODULES = ["PestModel.Thm.C04", "PestModel.Thm.C04Queue"]
 DRV, MODE = "drv_views", "views"
 
 
